@@ -571,3 +571,9 @@ V("C18", "rt-normfactor-val-from-low", "fire", "C18.R5", "reader takes the normf
   (RX, "                'inits': [float(modtag.attrib['Val'])],", "                'inits': [float(modtag.attrib['Low'])],"))
 V("C18", "rt-attr-order", "silent", "", "Sample attributes listed in another order",
   (WX, "        'Name': samplespec['name'],\n        'HistoName': histname,", "        'HistoName': histname,\n        'Name': samplespec['name'],"))
+
+# ------------------------------------------------------------------ C01.R10: interpolating appliers end to end
+V("C01", "normsys-histoset-lo-hi-swapped", "fire", "C01.R10", "normsys hands (hi, nom, lo) to the interpolator",
+  ("src/pyhf/modifiers/normsys.py", "                    builder_data[m][s]['data']['lo'],\n                    builder_data[m][s]['data']['nom_data'],\n                    builder_data[m][s]['data']['hi'],", "                    builder_data[m][s]['data']['hi'],\n                    builder_data[m][s]['data']['nom_data'],\n                    builder_data[m][s]['data']['lo'],"))
+V("C01", "histosys-default-ones", "fire", "C01.R10", "histosys leaves 1 instead of 0 where not declared",
+  ("src/pyhf/modifiers/histosys.py", "self.histosys_default = tensorlib.zeros(self.histosys_mask.shape)", "self.histosys_default = tensorlib.ones(self.histosys_mask.shape)"))
